@@ -1,8 +1,7 @@
 ---- MODULE TF ----
-EXTENDS C3DFormat, TLC
-o == DefaultObject
-b == WriterModel(o)
-r == ReaderModel(b)
-ASSUME PrintT(<<"diff", {<<i, k, r.obj.grp[i].p[k], o.grp[i].p[k]>> : i \in 1..3, k \in 1..7} \cap {x \in {<<i, k, r.obj.grp[i].p[k], o.grp[i].p[k]>> : i \in 1..3, k \in 1..7} : x[3] # x[4]}>>)
-ASSUME PrintT(<<"hdr", {f \in DOMAIN o.hdr : o.hdr[f] # r.obj.hdr[f]}, Content(r.obj).hdr = Content(o).hdr, Content(r.obj).grp = Content(o).grp, Content(r.obj).frm = Content(o).frm >>)
+EXTENDS MC_Format
+f == AllFiles[41]
+ASSUME PrintT(<<"len", Len(f.bytes)>>)
+ASSUME PrintT(<<"src", Content(f.src).frm>>)
+ASSUME PrintT(<<"dec", Decode(f.bytes).frm>>)
 ====
